@@ -135,7 +135,23 @@ func checkC09(c *Ctx) {
 		s := c09Base(r)
 		var field, class, val string
 		mayRefuse := false
-		if chance(r, 6) {
+		var idx int
+		fmt.Sscanf(cs.Name, "gen:%d", &idx)
+		largeSizes := []int{1300 << 10, 4500 << 10}
+		if !c.Quick() {
+			largeSizes = append(largeSizes, 9<<20, 17<<20, 33<<20)
+		}
+		if idx < len(largeSizes) {
+			// size is no excuse: Specs whose files exceed 1, 4, ... MiB (many devices)
+			field, class = "size", "large"
+			val = fmt.Sprintf("more than %d KiB", largeSizes[idx]>>10)
+			filler := strings.Repeat("x", 2000)
+			for n := 0; n*2060 < largeSizes[idx]; n++ {
+				s.Devices = append(s.Devices, specs.Device{Name: fmt.Sprintf("fill%d", n), ContainerEdits: specs.ContainerEdits{Env: []string{"F=" + filler}}})
+			}
+			s.Devices = append(s.Devices, specs.Device{Name: "last", ContainerEdits: specs.ContainerEdits{Env: []string{"LAST=1"}}})
+			c.Count("large_specs", 1)
+		} else if chance(r, 6) {
 			// in-memory shapes a parsed document never has: allocated but empty lists and
 			// maps. Whether such a Spec is accepted for writing is the library's call
 			// (a device whose edits are all empty has no edits); IF it is accepted the
@@ -266,6 +282,12 @@ func checkC09(c *Ctx) {
 				cs.Violation("cache-differs", tags, fmt.Sprintf("%s loaded through the cache yields a different device (%s = %q): errors %v", name, field, val, cache.GetErrors()), wit(nil))
 				continue
 			}
+			if class == "large" {
+				if d := cache.GetDevice("vendor.com/gpu=last"); d == nil || len(cache.ListDevices()) != len(s.Devices) {
+					cs.Violation("cache-differs", tags, fmt.Sprintf("%s (%s) loaded through the cache: %d of %d devices, last device resolves: %v, errors %v", name, val, len(cache.ListDevices()), len(s.Devices), d != nil, cache.GetErrors()), map[string]any{"name": name, "devices": len(s.Devices)})
+					continue
+				}
+			}
 			c.Count("roundtrips_ok", 1)
 			os.Remove(file)
 		}
@@ -278,4 +300,5 @@ func checkC09(c *Ctx) {
 		c.Sample(4, map[string]any{"field": field, "class": class, "value": val})
 	})
 	c.Floor("roundtrips_ok", 1000)
+	c.Floor("large_specs", 2)
 }
